@@ -25,7 +25,7 @@ RULE = (
     "RallyAssertionError; the driver's metrics store - or race control's, while it adds the metrics handed over after a step - failing on "
     "its n-th record, once or persistently (flush/close/externalise too); a "
     "track preparation task raising; a worker process killed at a drawn virtual time; user cancellation (KeyboardInterrupt in race "
-    "control's ask) at a drawn virtual time; or no fault. Non-trivial = the fault actually fired and the race had >= 2 workers. "
+    "control's ask) at a drawn virtual time; or no fault; a third of the runner / parameter-source faults hit a partner task's request issued about when the completed-by task of its element ends. Non-trivial = the fault actually fired and the race had >= 2 workers. "
     "Distinct = distinct canonical JSON."
 )
 ASSUMPTIONS = [
